@@ -230,7 +230,7 @@ def trace_validation(ctx, exe, corrupt=None, sweep=True):
             # tagged (equal yet distinguishable) elements with mixed high-bit texts for two classes, plain digit strs for one
             plain = (ci + ctx.seed) % 3 == 0
             n, mx, ok = x_c03.record_validate(ctx, exe, cls, [cls, str(sne), "0" if plain else "1", "0" if plain else "1", "compact"],
-                                              sw, INIT, "VecBagTrace.tla", "VecBagTrace.cfg", tag="sweep-" + cls)
+                                              sw, INIT, "VecBagTrace.tla", "VecBagTrace.cfg", tag="sweep-" + cls, env={"VH_WATCHDOG": "1500"})      # one long script: the per-script watchdog of 20 s does not fit
             total += n
             smax = max(smax, mx)
         ctx.cov["sweep_sizes"] = [m for n_ in SWEEP_SIZES[ctx.tier] for m in (n_ - 1, n_, n_ + 1)]
